@@ -1,10 +1,10 @@
 SPECIFICATION Spec
 CONSTANTS
   FLattice <- LatT
-  Sizes = {2, 3, 4, 5}
+  Sizes = {2, 3, 4}
   Vals = {0, 1, 2, 3}
   Inf2 = 999
-  MaxNan = 2
+  MaxNan = 1
   Mode = "laws"
 INVARIANT Laws
 CHECK_DEADLOCK FALSE
